@@ -20,6 +20,8 @@ import (
 	"fmt"
 	"reflect"
 	"runtime"
+	"runtime/debug"
+	"sort"
 	"strings"
 	"testing"
 	"time"
@@ -41,6 +43,51 @@ type c38Kit struct {
 	maxVerifyAlloc uint64
 	maxDecodeRatio float64
 	sampled        map[string]bool
+
+	probes, probesAfterChunkDecodeError int64 // healthy-Slot probes run right after a mutated case (all / after a same-size chunk corruption)
+	redecodes                           int64 // canonical re-decodes run right after a rejected decoder input
+}
+
+// noGC runs one multi-step sequence (a rejected call followed by a healthy one) with the
+// garbage collector switched off. With GOMAXPROCS=1 (harness.json) there is exactly one P,
+// so whatever a call hands to a sync.Pool sits in that P's private/shared slot and is what
+// the next Get on the same goroutine receives; the only thing that removes pool items is the
+// pool cleanup at the start of a GC cycle. No GC inside the sequence => state reuse between
+// the steps is certain by construction (not a matter of luck or repetition).
+func (k *c38Kit) noGC(f func()) {
+	old := debug.SetGCPercent(-1)
+	defer debug.SetGCPercent(old)
+	f()
+}
+
+// probe verifies one untouched Slot of the (restored, pristine) archive through the real
+// slot-level verifier: manifest digest, every chunk decoded and digest-checked.
+func (k *c38Kit) probe(a *c38Archive) (err error, pan any) {
+	defer func() {
+		if p := recover(); p != nil {
+			pan = p
+		}
+	}()
+	slot := a.probeSlot()
+	ref, sm, err := backup.LoadStoredSlotReference(c38Ctx, a.store, a.shape.id, a.published.Slots[slot], true)
+	if err != nil {
+		return err, nil
+	}
+	if ref != a.published.Slots[slot] || !reflect.DeepEqual(sm, a.slotMan[slot]) {
+		return fmt.Errorf("Slot %d verified but reference/manifest differ from the published ones", slot), nil
+	}
+	return nil, nil
+}
+
+// probeSlot: the lowest focus Slot (>= 1 chunk, in most archives metadata + messages).
+func (a *c38Archive) probeSlot() int {
+	best := -1
+	for s := range a.focus {
+		if best < 0 || s < best {
+			best = s
+		}
+	}
+	return best
 }
 
 func (k *c38Kit) timeUp() bool {
@@ -131,13 +178,29 @@ func (k *c38Kit) mustFail(e *ev.Enum, section string, a *c38Archive, class, objK
 	if k.skip(key) {
 		return
 	}
-	_, err, pan, _ := k.verify(a, edits)
+	var err, perr error
+	var pan, ppan any
+	k.noGC(func() {
+		_, err, pan, _ = k.verify(a, edits)
+		// SEQUENCE: the store is pristine again; a healthy Slot of the same archive must verify
+		// right after the rejected (or accepted) mutated archive, in the same process state.
+		perr, ppan = k.probe(a)
+	})
+	k.probes++
+	if objKind == "chunk" && (class == "byte-bit0" || class == "byte-ff" || class == "same-size-bit0") {
+		k.probesAfterChunkDecodeError++ // same-size corruption of a chunk object: reaches the chunk decoder
+	}
 	outcome := class + "/" + c38ErrClass(err)
 	if pan != nil {
 		outcome = class + "/panic"
 		k.violate("C38:verify-panic:"+class+":"+objKind, section, key, "VerifyPublishedArchive panicked: %v", pan)
 	} else if err == nil {
 		k.violate("C38:mutation-accepted:"+class+":"+objKind, section, key, "VerifyPublishedArchive accepted a mutated archive (%s of a %s object)", class, objKind)
+	}
+	if perr != nil || ppan != nil {
+		k.violate("C38:healthy-slot-rejected-after:"+class+":"+objKind, section, key,
+			"sequence: (1) VerifyPublishedArchive on the archive with a %s of a %s object -> %v; (2) store restored, LoadStoredSlotReference(verifyChunks) of untouched Slot %d of the pristine archive -> err=%v panic=%v (a published, untouched archive must verify)",
+			class, objKind, err, a.probeSlot(), perr, ppan)
 	}
 	e.Case(key, true, outcome)
 	k.sample(section+"/"+class, map[string]any{"section": section, "class": class, "object": objKind, "case": key, "result": c38ErrClass(err)})
@@ -853,16 +916,33 @@ func (k *c38Kit) decodeCase(e *ev.Enum, d *c38Decoder, class, name string, in []
 		e.Case(key, false, "identical")
 		return
 	}
-	var err error
-	var pan any
-	alloc := k.measure(func() {
-		defer func() {
-			if p := recover(); p != nil {
-				pan = p
-			}
+	var err, cerr error
+	var pan, cpan any
+	var alloc uint64
+	k.noGC(func() {
+		alloc = k.measure(func() {
+			defer func() {
+				if p := recover(); p != nil {
+					pan = p
+				}
+			}()
+			err = d.decode(in)
+		})
+		// SEQUENCE: the canonical document must still be accepted right after the variant
+		func() {
+			defer func() {
+				if p := recover(); p != nil {
+					cpan = p
+				}
+			}()
+			cerr = d.decode(d.body)
 		}()
-		err = d.decode(in)
 	})
+	k.redecodes++
+	if cerr != nil || cpan != nil {
+		k.violate("C38:canonical-rejected-after:"+class+":"+d.name, "decoders", key,
+			"sequence: (1) %s on a %s variant (%d bytes) -> %v; (2) %s on the canonical document -> err=%v panic=%v", d.name, class, len(in), err, d.name, cerr, cpan)
+	}
 	ceiling := uint64(c38AllocBase + c38AllocPerIn*len(in))
 	if ratio := float64(alloc) / float64(len(in)+1); len(in) > 4096 && ratio > k.maxDecodeRatio {
 		k.maxDecodeRatio = ratio
@@ -1098,6 +1178,255 @@ func c38Short(s string) string {
 	return s
 }
 
+// ---------------------------------------------------------------- section E
+
+type c38Healthy struct {
+	key     string
+	body    []byte
+	desc    backup.ChunkDescriptor
+	payload []byte
+}
+
+// decodeChunk runs the real exported chunk verifier on (body, desc).
+func c38DecodeChunk(body []byte, desc backup.ChunkDescriptor) (out []byte, err error, pan any) {
+	defer func() {
+		if p := recover(); p != nil {
+			pan = p
+		}
+	}()
+	var dst bytes.Buffer
+	err = backup.DecodeChunk(&dst, bytes.NewReader(body), desc)
+	return dst.Bytes(), err, nil
+}
+
+// sequences: verification is a sequence of calls in ONE process. Every case here is a
+// multi-step history: a rejected (mutated) chunk / archive followed by a healthy one that
+// has to verify, followed (by the chaining of cases) by the next mutated one that has to be
+// rejected again.
+//   chunk   DecodeChunk(mutated bytes or descriptor) -> error ; DecodeChunk(healthy chunk H)
+//           -> nil and H's payload, for every single mutation of every focus chunk and
+//           H in {the same chunk, the next distinct healthy chunk}
+//   archive VerifyPublishedArchive(mutated) -> error ; VerifyPublishedArchive(pristine) ->
+//           the published manifest, for a menu of mutations of every object kind and every
+//           byte of the first focus chunk
+func (k *c38Kit) sequences(archives []*c38Archive) {
+	sec := "sequence"
+	e := k.r.NewEnum(sec)
+	var nChunkPairs, nArchivePairs, nZstdErr, nCompareErr int64
+	for _, a := range archives {
+		n := a.shape.name
+		// healthy chunks: every chunk of the focus Slots plus the last Slot's chunk, distinct bodies
+		var hs []c38Healthy
+		seen := map[string]bool{}
+		addSlot := func(slot int) {
+			for _, c := range a.slotMan[slot].Chunks {
+				key := a.root + c.Key
+				if seen[string(a.body(key))] {
+					continue
+				}
+				seen[string(a.body(key))] = true
+				hs = append(hs, c38Healthy{key: key, body: a.body(key), desc: c.Descriptor, payload: a.payload[key]})
+			}
+		}
+		var fslots []int
+		for s := range a.focus {
+			fslots = append(fslots, s)
+		}
+		sort.Ints(fslots)
+		for _, s := range fslots {
+			addSlot(s)
+		}
+		addSlot(backup.DefaultHashSlotCount - 2)
+		if len(hs) < 2 {
+			k.r.HarnessError("archive %s: fewer than two distinct healthy chunks", n)
+			continue
+		}
+		// ---- chunk-level pairs
+		for ci, c := range hs {
+			if !k.mine(ci) || k.timeUp() {
+				continue
+			}
+			type mut struct {
+				name string
+				body []byte
+				desc backup.ChunkDescriptor
+			}
+			var muts []mut
+			for off := range c.body {
+				for mi, nb := range []byte{c.body[off] ^ 1, 0xFF} {
+					if nb == c.body[off] {
+						continue
+					}
+					b := c38Clone(c.body)
+					b[off] = nb
+					muts = append(muts, mut{fmt.Sprintf("%s@%d", [2]string{"byte-bit0", "byte-ff"}[mi], off), b, c.desc})
+				}
+			}
+			for l := 0; l < len(c.body); l++ {
+				muts = append(muts, mut{fmt.Sprintf("truncated@%d", l), c.body[:l:l], c.desc})
+			}
+			for _, x := range []byte{0x00, '\n', ' ', 0xFF, '}'} {
+				muts = append(muts, mut{fmt.Sprintf("extended@%02x", x), append(c38Clone(c.body), x), c.desc})
+			}
+			muts = append(muts, mut{"doubled", append(c38Clone(c.body), c.body...), c.desc})
+			other := hs[(ci+1)%len(hs)]
+			muts = append(muts, mut{"foreign-body", other.body, c.desc})
+			for _, d := range []int64{+1, -1} {
+				dd := c.desc
+				dd.StoredBytes = uint64(int64(dd.StoredBytes) + d)
+				muts = append(muts, mut{fmt.Sprintf("desc-stored-bytes%+d", d), c.body, dd})
+				dd = c.desc
+				dd.LogicalBytes = uint64(int64(dd.LogicalBytes) + d)
+				muts = append(muts, mut{fmt.Sprintf("desc-logical-bytes%+d", d), c.body, dd})
+			}
+			for _, nib := range []int{0, 63} {
+				dd := c.desc
+				dd.StoredSHA256 = c38BumpHex(dd.StoredSHA256, nib)
+				muts = append(muts, mut{fmt.Sprintf("desc-stored-digest-nibble%d", nib), c.body, dd})
+				dd = c.desc
+				dd.LogicalSHA256 = c38BumpHex(dd.LogicalSHA256, nib)
+				muts = append(muts, mut{fmt.Sprintf("desc-logical-digest-nibble%d", nib), c.body, dd})
+			}
+			dd := c.desc
+			dd.Compression = "gzip"
+			muts = append(muts, mut{"desc-codec", c.body, dd})
+			followers := []c38Healthy{c, other}
+			for _, m := range muts {
+				class := m.name
+				if i := strings.IndexByte(class, '@'); i >= 0 {
+					class = class[:i]
+				}
+				for fi, h := range followers {
+					key := fmt.Sprintf("%s|chunk-pair|%s|%s|then-%s", n, c.key, m.name, [2]string{"same", "next"}[fi])
+					if k.skip(key) {
+						continue
+					}
+					var merr, herr error
+					var mpan, hpan any
+					var hout []byte
+					k.noGC(func() {
+						_, merr, mpan = c38DecodeChunk(m.body, m.desc)
+						hout, herr, hpan = c38DecodeChunk(h.body, h.desc)
+					})
+					switch {
+					case mpan != nil:
+						k.violate("C38:decode-chunk-panic:"+class, sec, key, "DecodeChunk panicked on a mutated chunk: %v", mpan)
+					case merr == nil:
+						k.violate("C38:chunk-mutation-accepted:"+class, sec, key, "DecodeChunk accepted a mutated chunk (%s)", m.name)
+					case strings.Contains(merr.Error(), "mismatch"):
+						nCompareErr++
+					default:
+						nZstdErr++
+					}
+					if herr != nil || hpan != nil || !bytes.Equal(hout, h.payload) {
+						k.violate("C38:healthy-chunk-rejected-after:"+class, sec, key,
+							"sequence: (1) DecodeChunk(%s of %s) -> %v; (2) DecodeChunk(untouched %s, its published descriptor) -> err=%v panic=%v, %d of %d payload bytes reproduced",
+							m.name, c.key, merr, h.key, herr, hpan, len(hout), len(h.payload))
+					}
+					nChunkPairs++
+					e.Case(key, true, "chunk-pair/"+class+"/"+c38ErrClass(merr))
+					k.sample(sec+"/chunk/"+class, map[string]any{"section": sec, "case": key, "step1": c38ErrClass(merr), "step2": c38ErrClass(herr)})
+				}
+			}
+		}
+		// ---- archive-level pairs: mutated full verification, then pristine full verification
+		type amut struct {
+			class, kind, name string
+			edits             []c38Edit
+		}
+		var amuts []amut
+		// quick: archives "min" (one legacy single-chunk focus Slot) and "rich" (multi-chunk, attempt keys),
+		// archive-level objects + the probe Slot's objects + the last Slot's objects; thorough: every archive,
+		// every focus object. A full pristine verification costs 256 Slot verifications.
+		if !k.thorough && n != "min" && n != "rich" {
+			continue
+		}
+		objs := a.focusObjects()
+		if !k.thorough {
+			objs = append([]c38Object{a.objects[0], a.objects[1]}, a.slotObjs[a.probeSlot()]...)
+		}
+		objs = append(objs, a.slotObjs[backup.DefaultHashSlotCount-1]...) // fails after 255 healthy Slots
+		for _, o := range objs {
+			orig := a.body(o.key)
+			flip := func(off int, ff bool) []byte {
+				b := c38Clone(orig)
+				if ff && b[off] != 0xFF {
+					b[off] = 0xFF
+				} else {
+					b[off] ^= 1
+				}
+				return b
+			}
+			amuts = append(amuts,
+				amut{"byte-bit0", o.kind, o.key + "@first", []c38Edit{{key: o.key, body: flip(0, false)}}},
+				amut{"byte-ff", o.kind, o.key + "@middle", []c38Edit{{key: o.key, body: flip(len(orig)/2, true)}}},
+				amut{"byte-bit0", o.kind, o.key + "@last", []c38Edit{{key: o.key, body: flip(len(orig)-1, false)}}},
+				amut{"truncated", o.kind, o.key, []c38Edit{{key: o.key, body: orig[: len(orig)-1 : len(orig)-1]}}},
+				amut{"extended", o.kind, o.key, []c38Edit{{key: o.key, body: append(c38Clone(orig), 0)}}},
+				amut{"deleted", o.kind, o.key, []c38Edit{{key: o.key, del: true}}})
+		}
+		// every byte of the first focus chunk (all archives in thorough, archive "min" in quick)
+		if k.thorough {
+			o := a.slotObjs[a.probeSlot()][1]
+			orig := a.body(o.key)
+			for off := range orig {
+				for mi, nb := range []byte{orig[off] ^ 1, 0xFF} {
+					if nb == orig[off] {
+						continue
+					}
+					b := c38Clone(orig)
+					b[off] = nb
+					amuts = append(amuts, amut{[2]string{"byte-bit0", "byte-ff"}[mi], o.kind, fmt.Sprintf("%s@%d", o.key, off), []c38Edit{{key: o.key, body: b}}})
+				}
+			}
+		}
+		amuts = append(amuts, amut{"corrupt-marker-present", "marker", "CORRUPT", []c38Edit{{key: a.root + "CORRUPT", body: []byte("x")}}})
+		for mi, m := range amuts {
+			if !k.mine(mi) || k.timeUp() {
+				continue
+			}
+			key := fmt.Sprintf("%s|archive-pair|%s|%s", n, m.class, m.name)
+			if k.skip(key) {
+				continue
+			}
+			var merr, herr error
+			var mpan, hpan any
+			var hm backup.ArchiveManifest
+			k.noGC(func() {
+				_, merr, mpan, _ = k.verify(a, m.edits)
+				hm, herr, hpan, _ = k.verify(a, nil)
+			})
+			switch {
+			case mpan != nil:
+				k.violate("C38:verify-panic:"+m.class+":"+m.kind, sec, key, "VerifyPublishedArchive panicked: %v", mpan)
+			case merr == nil:
+				k.violate("C38:mutation-accepted:"+m.class+":"+m.kind, sec, key, "VerifyPublishedArchive accepted a mutated archive (%s of a %s object)", m.class, m.kind)
+			}
+			if herr != nil || hpan != nil || !reflect.DeepEqual(hm, a.published) {
+				k.violate("C38:valid-archive-rejected-after:"+m.class+":"+m.kind, sec, key,
+					"sequence: (1) VerifyPublishedArchive on the archive with a %s of a %s object -> %v; (2) store restored, VerifyPublishedArchive on the pristine published archive -> err=%v panic=%v manifest-equal=%v (a published, untouched archive must verify; a caller would quarantine it as CORRUPT)",
+					m.class, m.kind, merr, herr, hpan, reflect.DeepEqual(hm, a.published))
+			}
+			nArchivePairs++
+			e.Case(key, true, "archive-pair/"+m.class+"/"+c38ErrClass(merr))
+			k.sample(sec+"/archive/"+m.class, map[string]any{"section": sec, "case": key, "step1": c38ErrClass(merr), "step2": c38ErrClass(herr)})
+		}
+	}
+	k.r.Count("sequence_chunk_pairs", nChunkPairs)
+	k.r.Count("sequence_archive_pairs", nArchivePairs)
+	k.r.Count("sequence_chunk_step1_decoder_errors", nZstdErr)
+	k.r.Count("sequence_chunk_step1_digest_or_size_mismatch", nCompareErr)
+	if k.replay == "" {
+		k.r.Guard("sequence-pairs-run", nChunkPairs >= 100 && nArchivePairs >= 5 && nZstdErr+nCompareErr > 0,
+			"%d chunk pairs (step 1 rejected %d times inside the decoder / descriptor validation, %d times by the digest/size comparison) and %d archive pairs (rejected, then pristine)", nChunkPairs, nZstdErr, nCompareErr, nArchivePairs)
+	}
+	e.Done(!k.capped, map[string]any{
+		"chunk_pairs":   "for every archive, every distinct chunk C of the focus Slots and of Slot 254: every byte x {bit0 flipped, 0xFF}, every truncation length, +1 byte {00,0a,20,ff,7d}, doubled, another chunk's bytes, descriptor stored/logical size +-1, digest nibbles 0/63, codec; each followed by DecodeChunk of {C itself, the next distinct healthy chunk} which must succeed and reproduce the payload",
+		"archive_pairs": "quick: archives 'min' and 'rich': COMPLETE, manifest.json, every object of the lowest focus Slot and both objects of Slot 255 x {bit0 of first byte, 0xFF at the middle byte, bit0 of last byte, last byte cut, +1 byte 00, deleted} and CORRUPT marker present; thorough: every archive, every focus object, plus every byte x {bit0, 0xFF} of the first focus chunk; each followed by VerifyPublishedArchive of the pristine archive which must return the published manifest",
+		"state_reuse":   "GOMAXPROCS=1 and the collector switched off for the duration of each sequence (debug.SetGCPercent(-1)): one P, no pool cleanup => whatever step 1 leaves in a sync.Pool / package variable is what step 2 receives; the same holds for the healthy-Slot probe after every case of the single-mutation and resigned sections and the canonical re-decode after every decoder case",
+	}, "a case is a two-step history in one process; consecutive cases chain to ...rejected, accepted, rejected, accepted...")
+}
+
 // ---------------------------------------------------------------- test
 
 func TestVerifC38(t *testing.T) {
@@ -1121,6 +1450,7 @@ func TestVerifC38(t *testing.T) {
 	r.Assume("the ArchiveStore reports exact keys and object sizes (pkg/backup FLOW.md: 'Implementations must preserve exact keys and object sizes'); a store that lies about sizes is out of scope")
 	r.Assume("digests are unkeyed SHA-256: an adversary who rewrites an object AND every digest above it produces a different valid archive unless a structural rule is broken; the 'resigned' section therefore demands detection only for ordering, size, identity and reference inconsistencies")
 	r.Assume("allocation of one call = runtime.MemStats.TotalAlloc delta, single-threaded (GOMAXPROCS=1, zstd decoders run synchronously)")
+	r.Assume("sequences: process-level state left behind by one verification call (sync.Pool items, package variables, caches) reaches the next call deterministically because the test runs on one P (GOMAXPROCS=1) with the collector off for the duration of each sequence; sync.Pool of the go1.25 runtime drops items only in the pool cleanup at the start of a GC cycle")
 
 	var archives []*c38Archive
 	for _, sh := range c38Shapes(k.thorough) {
@@ -1142,6 +1472,15 @@ func TestVerifC38(t *testing.T) {
 	}
 	run("resigned", k.resigned)
 	run("decoders", k.decoders)
+	run("sequence", k.sequences)
 	run("single-mutation", k.singleMutations)
+	r.Count("healthy_slot_probes_after_mutated_archive", k.probes)
+	r.Count("healthy_slot_probes_after_same_size_chunk_corruption", k.probesAfterChunkDecodeError)
+	r.Count("canonical_redecodes_after_decoder_variant", k.redecodes)
+	if k.replay == "" {
+		r.Guard("sequence-probes-run", k.probes > 0 && k.probesAfterChunkDecodeError > 0 && k.redecodes > 0,
+			"%d mutated-archive verifications were each followed by a verification of an untouched Slot of the pristine archive (%d of them after a same-size corruption of a chunk object, i.e. after a failure inside the chunk decoder); %d decoder variants were each followed by a decode of the canonical document",
+			k.probes, k.probesAfterChunkDecodeError, k.redecodes)
+	}
 	r.Count("max_verify_alloc_bytes", int64(k.maxVerifyAlloc))
 }
